@@ -89,7 +89,7 @@ func (e *pkgEnv) runWith(checker string, params map[string]interface{}) ([]linte
 
 // ---- gc type grammar ----
 type gtype struct {
-	coq string
+	coq   string
 	gosrc string
 }
 
